@@ -26,6 +26,7 @@ Dbl(s, e, m) == <<s * 128 + e \div 16, (e % 16) * 16 + m[1]>> \o SubSeq(m, 2, 7)
 Mants == {<<0, 0, 0, 0, 0, 0, 0>>, <<0, 0, 0, 0, 0, 0, 1>>, <<8, 0, 0, 0, 0, 0, 0>>, <<15, 255, 255, 255, 255, 255, 255>>, <<9, 153, 153, 153, 153, 153, 154>>}
 Exps == {0, 1, 2, 1000, 1019, 1022, 1023, 1024, 1026, 1075, 1076, 2045, 2046}
 Doubles == {Dbl(s, e, m) : s \in {0, 1}, e \in Exps, m \in Mants}
-Alpha == {<<97>>, <<34>>, <<92>>, <<47>>, <<10>>, <<0>>, <<31>>, <<127>>, <<195, 169>>, <<240, 159, 152, 128>>, <<226, 128, 168>>}
+Alpha == {<<97>>, <<34>>, <<92>>, <<47>>, <<10>>, <<0>>, <<31>>, <<127>>, <<195, 169>>, <<240, 159, 152, 128>>, <<226, 128, 168>>,
+          <<223, 191>>, <<224, 160, 128>>, <<224, 191, 191>>, <<225, 128, 128>>}     \* U+07FF U+0800 U+0FFF U+1000: UTF-8 length classes
 Strs == {<<>>} \cup Alpha \cup {a \o b : a \in Alpha, b \in Alpha}
 =============================================================================
